@@ -5,7 +5,7 @@ PROP = "C16"
 DRIVER = "drv_signals"
 LEAN_MODULES = ["MesaModel.Props.C16", "MesaModel.Props.C18Signals"]
 THEOREMS = ["Mesa.Signals." + t for t in (
-    "C16_observe_pointwise", "C16_unobserve_pointwise", "C16_unobserve_removes", "C16_clear_removes",
+    "C16_observe_pointwise", "C16_unobserve_pointwise", "C16_unobserve_removes", "C16_unobserve_keeps_others", "C16_clear_removes",
     "C16_registry_is_subscription_history", "C16_delivery_exactly_once_in_order", "C16_dead_never_called",
     "C16_unsubscribed_never_called", "C16_unknown_rejected", "C16_assign_payload", "C16_signals_track_list",
     "C16_replica_all_histories", "C16_listener_receives_all", "C16_listener_replica_all_histories", "C16_pi_independent",
@@ -29,11 +29,24 @@ TRUSTED = [
     "notified; handlers that assign or raise while notified are not modelled; values are ints, lists of ints; slices: "
     "CPython's slice.indices semantics (open bounds, any step) is modelled and compared on every run",
 ]
+TRUSTED.append(
+    "`__eq__` of user objects is outside the model (handlers are identities there): in the `veq` scenarios the owners of the "
+    "bound-method handlers are value objects that compare equal while they have recorded the same signals; that CPython "
+    "compares bound methods by the identity of `__self__` (so these are different handlers) is trusted, the delivery "
+    "clause of the oracle and the registry dumps are compared as for any other handler")
 ASSUMPTIONS = ["handlers do not assign and do not raise while being notified (re-entrant registry calls are covered)"]
 RULE = ("random classes with 2-4 Observables / ObservableLists split over 1-3 classes of an inheritance chain, in 3/10 of the chains a base class defines one of the names again (overridden: the most derived definition is in effect), random orders of "
-        "the signal-type sets, 2-6 handlers (functions and bound methods, some dropped; in 1/4 of the scenarios 1-2 handlers make 1-2 registry calls - unobserve of themselves or of others, clear_all, observe of a passive handler - whenever they are called), 6-28 ops from observe/unobserve (name "
-        "or All x type or All, incl. invalid ones), clear_all, drop, assignment and all list mutations with in-range, negative "
+        "the signal-type sets, 2-6 handlers (functions and bound methods, some dropped; in 3/10 of the scenarios the owners of the bound methods are value objects with an __eq__ by recorded signals - equal owners, different handlers - and at least two of them (not combined with calling handlers while finding G13b is open); in 1/4 of the scenarios 1-2 handlers make 1-2 registry calls - unobserve of themselves or of others, clear_all, observe of a passive handler - whenever they are called), 6-28 ops from observe/unobserve (name "
+        "or All x type or All, incl. invalid ones), clear_all, drop, assignment (of fresh items or of another list of the object) and all list mutations with in-range, negative "
         "and out-of-range indices, extend / += from an iterable that raises after some items, slices with open / negative / out-of-range bounds and steps -3..3 (0 and wrong item counts are rejected); non-trivial = at least 3 signals delivered and at least one All subscription")
+
+
+# open findings (known_findings.d/C16.txt).  G13b: a handler with value-equal owner that unsubscribed while notified is called
+# again in the same round; only the witness (the generator keeps `veq` and `prog:` apart while it is open, S.VEQ_WITH_PROGS)
+KNOWN = {
+    "G13b": {"scenario": S.G13B_WITNESS,
+             "matches": lambda sc, clause: clause.startswith("delivery:") and "veq" in sc.lines[0].split() and "prog:" in sc.lines[0]},
+}
 
 
 def generate(rng, tier, count):
